@@ -31,7 +31,7 @@ _vocab = None
 NOTHING = object()
 
 
-def count_model_applies(meta, spec_text=None, spec_booleans=None, spec_syntax=NOTHING):
+def count_model_applies(meta, spec_text=None, spec_booleans=None, spec_syntax=NOTHING, spec_options=None, spec_snippets=None):
     """The tabstop count model assumes element names outside every snippet table and
     attribute names outside the boolean-attribute list; the tables are read (data only)
     so that a legitimate change of them switches the count check off instead of alarming."""
@@ -53,6 +53,10 @@ def count_model_applies(meta, spec_text=None, spec_booleans=None, spec_syntax=NO
     if spec_booleans is not None and list(meta.get('booleans') or []) != list(spec_booleans):
         return False        # ... or for another list of boolean attributes
     if spec_booleans is None and meta.get('booleans'):
+        return False
+    if 'bem' in meta and bool(meta['bem']) != bool((spec_options or {}).get('bem.enabled')):
+        return False
+    if 'snippets' in meta and sorted(meta['snippets']) != sorted(spec_snippets or {}):
         return False
     if meta.get('formatter') is not None and spec_syntax is not NOTHING and \
             (meta['formatter'] == 'indent') != (spec_syntax in ('pug', 'slim', 'haml')):
@@ -151,7 +155,7 @@ def check_call(run, i, op, result):
         if idx != list(range(1, len(idx) + 1)):
             bad('numbering-document-order', {'indices-in-document-order': idx})
             return
-        if 'expect' in meta and not count_model_applies(meta, spec.get('text'), (spec.get('options') or {}).get('output.booleanAttributes'), spec.get('syntax')):
+        if 'expect' in meta and not count_model_applies(meta, spec.get('text'), (spec.get('options') or {}).get('output.booleanAttributes'), spec.get('syntax'), spec.get('options'), spec.get('snippets')):
             run.count('c13:count-model-not-applicable(vocabulary now in a snippet table / boolean list)')
         elif 'expect' in meta:
             run.count('c13:calls-numbering-counted')
@@ -160,13 +164,21 @@ def check_call(run, i, op, result):
                 return
     elif mode == 'explicit':
         run.count('c13:calls-numbering-explicit')
-        if 'expect_anon' in meta and count_model_applies(meta, spec.get('text'), (spec.get('options') or {}).get('output.booleanAttributes'), spec.get('syntax')) \
+        if 'expect_anon' in meta and count_model_applies(meta, spec.get('text'), (spec.get('options') or {}).get('output.booleanAttributes'), spec.get('syntax'), spec.get('options'), spec.get('snippets')) \
                 and not (spec.get('options') or {}).get('bem.enabled'):
             run.count('c13:calls-numbering-anonymous-counted')
             anon = len([1 for _ix, ph in fields if not ph])
             if anon != meta['expect_anon']:
                 bad('numbering-count', {'tabstops-with-empty-placeholder': anon,
                                         'empty-values-and-leaves-in-abbreviation': meta['expect_anon']})
+                return
+        if 'expect_named' in meta and count_model_applies(meta, spec.get('text'), (spec.get('options') or {}).get('output.booleanAttributes'),
+                                                        spec.get('syntax'), spec.get('options'), spec.get('snippets')):
+            run.count('c13:calls-named-fields-checked')
+            seen_ph = set(ph for _ix, ph in fields if ph)
+            missing = [ph for ph in meta['expect_named'] if ph not in seen_ph]
+            if missing:
+                bad('numbering-missing-field', {'explicit fields written in the abbreviation that never reached output.field': missing[:6]})
                 return
         instances = []      # list of (value id or None, [(observed, written or None, placeholder)])
         cur = None
